@@ -109,6 +109,28 @@ def to_poly(t, env):
     raise NotPoly("term %s" % show(t)[:60])
 
 
+def _apply_fnrefs(t):
+    """`op(a, b)` with `op` a function item handed in as an argument: the arithmetic operator traits become the MIR
+    operator, anything else a direct call"""
+    OPS = {"add": "Add", "sub": "Sub", "mul": "Mul", "div": "Div"}
+
+    def go(x):
+        if not isinstance(x, tuple) or not x:
+            return x
+        if x[0] == "call":
+            args = tuple(go(a) for a in x[2])
+            if x[1].name in ("call_once", "call_mut", "call") and len(args) == 2:
+                f, tup = strip(args[0]), strip(args[1])
+                if isinstance(f, tuple) and f and f[0] == "fnref" and isinstance(tup, tuple) and tup[:2] == ("agg", "tuple"):
+                    ops = tuple(tup[4])
+                    if f[1].name in OPS and "ops::" in (f[1].key() or "") and len(ops) == 2:
+                        return ("bin", OPS[f[1].name], ops[0], ops[1])
+                    return ("call", f[1], ops, ())
+            return (x[0], x[1], args) + tuple(x[3:])
+        return tuple(go(a) if isinstance(a, tuple) else a for a in x)
+    return go(t)
+
+
 class Algebra:
     def __init__(self, prog, adt):
         self.prog, self.adt = prog, adt
@@ -128,6 +150,11 @@ class Algebra:
         guard-lists: one list of branch facts per way of reaching the piece."""
         te = fn.terms
         r = strip(te.ret)
+        if r[0] == "call" and (r[1].local or getattr(r[1], "res_local", False)):
+            # the operation may be written through a private helper of the type (`self.zip_with(rhs, ops::Add::add)`):
+            # the helper's body with the arguments in place, function items applied
+            from . import canon
+            r = strip(_apply_fnrefs(canon.inline_top(self.prog, te, r)))
         if r[0] == "agg" and r[2] == self.adt:
             return [([[]], r[4])]
         out = []
